@@ -26,6 +26,23 @@ def instances(build, tier, seed):
             L.append(Inst('charconst.%s.range' % pn, 'h_charconst.c', {'PREFIX': prefix, 'TARGET': 0, 'NB': nb, 'RANGE_PROBE': None}, units=['utf', 'type', 'targ'],
                           native_units=natives, unwind=nb + 4, unwindset=['strcmp.0:14'], family='charconst-range', timeout=300, witness=False,
                           bound={'body_bytes': nb, 'prefix': pn, 'inputs': 'only out-of-range values (known finding probe)'}))
+    # string literals: concrete item shapes, symbolic contents (harness/h_strlit.c)
+    shapes = ['a', 'x', 'o', '2', '4', 'x2', '2x', 'x3a', 'a2x', 'sx2', '42a', 'xx4']
+    if tier == 'thorough':
+        shapes += ['s', '3', 'o4', '4o', 'o2o', '23', 'ao3s', 'x4x2', 'o2x3', '4x4', 's2s']
+    for pre, pn in ((0, 'plain'), (4, 'u8'), (2, 'u'), (3, 'U'), (1, 'L')):
+        for sh in shapes:
+            L.append(Inst('strlit.%s.%s' % (pn, sh), 'h_strlit.c', {'PREFIX1': pre, 'SHAPE1': '"%s"' % sh}, units=['utf', 'type', 'targ', 'util'], overrides=['fatal', 'xmalloc', 'error'],
+                          native_units=natives, unwind=10, unwindset=['strlen.0:40', 'strcmp.0:14', 'main.0:42', 'main.1:42', 'main.2:42', 'stringconcat.0:3', 'stringconcat.1:%d' % (len(sh) + 2), 'stringconcat.2:3', 'build.0:8'],
+                          family='strlit', timeout=300 if tier == 'quick' else 1800, bound={'prefix': pn, 'items': sh, 'contents': 'symbolic'}))
+    # concatenation of two literal tokens: the escape state must not leak across tokens, prefixes combine (6.4.5p5), mixed prefixes are diagnosed
+    for p1, p2, s1, s2 in ((0, 0, 'x', '2'), (0, 2, 'a2', 'x4'), (2, 0, 'o', '4'), (4, 0, '3', 'x'), (0, 3, 'x', '3'), (1, 1, '4', 'o'), (2, 3, 'a', 'a'), (4, 1, 'a', 'a'), (0, 4, 'x2', '2x')):
+        L.append(Inst('strlit.concat.%d%d.%s.%s' % (p1, p2, s1, s2), 'h_strlit.c', {'PREFIX1': p1, 'PREFIX2': p2, 'SHAPE1': '"%s"' % s1, 'SHAPE2': '"%s"' % s2}, units=['utf', 'type', 'targ', 'util'],
+                      overrides=['fatal', 'xmalloc', 'error'], native_units=natives, unwind=10,
+                      unwindset=['strlen.0:40', 'strcmp.0:14', 'main.0:42', 'main.1:42', 'main.2:42', 'stringconcat.0:4', 'stringconcat.1:%d' % (max(len(s1), len(s2)) + 2), 'stringconcat.2:4', 'build.0:8'],
+                      family='strlit', timeout=300, witness=not (p1 and p2 and p1 != p2), bound={'prefixes': [p1, p2], 'items': [s1, s2], 'contents': 'symbolic'}))
+    META['functions'] += ['expr.c:stringconcat', 'expr.c:encodechar8/16/32']
+    META['bounds']['strlit'] = 'literal bodies of 1-4 (5) items over {ASCII, simple escape, \\xHH, \\OOO, UTF-8 characters of 2/3/4 bytes} with symbolic contents, 5 prefixes; two-token concatenations'
     META['functions'] += ['expr.c:primaryexpr(TCHARCONST)', 'expr.c:decodechar', 'expr.c:isodigit', 'expr.c:mkconstexpr', 'targ.c:targinit']
     META['bounds']['charconst'] = 'all bodies of %d bytes the scanner accepts, 5 prefixes x 3 targets' % nb
     META['stubs'] += ['next() records', 'error() ends the path after asserting the reference also rejects']
